@@ -92,7 +92,10 @@ type Server struct {
 
 func (s Server) getRequestContext() *app.RequestContext {
 	if disabaleRequestContextPool {
-		return &app.RequestContext{}
+		// A context of its own for this connection, outside the pool - but an initialised one: a
+		// zero RequestContext starts its handler index at 0 instead of -1, so the first handler
+		// of the chain was skipped on the first request of every connection.
+		return app.NewContext(0)
 	}
 	return s.Core.GetCtxPool().Get().(*app.RequestContext)
 }
